@@ -379,7 +379,9 @@ func c20Run(c *c20Case) {
 }
 
 // ---- generators
-var c20Strs = []string{"", "", "a", "relay <b>&co", "日本語", "q\"uo\\te", "line\nbreak", "sep ", "wss://r.example"}
+var c20Strs = []string{"", "", "a", "relay <b>&co", "日本語", "q\"uo\\te", "line\nbreak", "sep ", "wss://r.example",
+	// percent signs: a document that passes through a formatting function as its format string loses them
+	"100% free", "https://r.example/icon%20v2.png", "50%", "%s%d%v", "%%"}
 var c20Ints = []int{0, 0, 1, -1, 7, 100, 65535, 1 << 31, -1 << 63, 1<<63 - 1}
 var c20KindNums = []int{0, 1, 4, 7, 40, -1, -5, 30023, 1 << 40}
 
